@@ -77,7 +77,7 @@ class Potential_Form_Registry(object):
   def _build_potential_forms(self, definitions):
     potential_forms = {}
     for d in definitions:
-      if d.signature.label in potential_forms:
+      if d.signature.label in potential_forms or d.signature.label in self._potential_forms:
         raise Potential_Form_Registry_Exception("Two potential forms have the same label in [Potential-Form] section: '{0}'".format(d.signature.label))
       func = _Cexptrk_Potential_Function(d)
       pf = Potential_Form(func)
